@@ -89,6 +89,10 @@ class TimerRun:
                     c = w.sides[side].conn
                     if c is not None and c.transport.producer is not None:
                         c.transport.producer.pauseProducing()
+            elif a == "OtherTraffic":
+                # a record that is not a pong reaches the Leader on the connection in use
+                from ..dilmid import Ack
+                self.L.m.got_record(Ack(0))
             elif a == "ConnLost":
                 w.cut()
                 w.observe_loss("L")
@@ -171,6 +175,8 @@ def real_enabled(run, interval, horizon, max_conns, stopped):
                     any(isinstance(r, Ping) and r.ping_id == p["id"] for r in out):
                 acts += [("Pong", k)] * 3
         acts.append(("ConnLost", run.conn_no))
+        if not stopped:
+            acts += [("OtherTraffic", run.conn_no)] * 2
     elif not stopped and run.conn_no < max_conns:
         acts += [("ConnMade", run.conn_no + 1)] * 2
     if not stopped:
@@ -178,18 +184,40 @@ def real_enabled(run, interval, horizon, max_conns, stopped):
     return acts
 
 
-def real_walk(tid, interval, rng, horizon, max_conns, nsteps=40):
+def half_open_script(interval, intervals, per_interval, answered_first):
+    """a connection that goes half-open: (optionally after one answered ping) the peer's records keep arriving, `per_interval`
+    of them in every ping interval, but no ping is answered any more"""
+    acts = [("ConnMade", 1)]
+    t = 0
+    for n in range(intervals):
+        for _ in range(interval):
+            t += 1
+            acts.append(("Tick", t))
+        acts.append(("TimerFires", t))
+        if answered_first and n == 0:
+            acts.append(("Pong", 2))
+        for _ in range(per_interval):
+            acts.append(("OtherTraffic", 1))
+    return acts
+
+
+def real_walk(tid, interval, rng, horizon, max_conns, nsteps=40, script=None):
     """Code -> spec: a seeded random walk over what the real Leader Manager + TrafficTimer can do, recorded step by step
     (action + projection) for validation against DilationTimer.tla, and judged by the observer like every other run."""
     run = TimerRun(interval, throttle=[(), ("L",), ("F",), ("L", "F")][tid % 4])
     stopped = False
     lines, snaps = [], []
     timers_max = 0
-    for _ in range(nsteps):
+    for step in range(len(script) if script is not None else nsteps):
         acts = real_enabled(run, interval, horizon, max_conns, stopped)
         if not acts:
             break
-        la = rng.choice(acts)
+        if script is not None:
+            la = script[step]
+            if la not in acts:
+                break           # the real objects do not offer the scripted step any more (e.g. the connection was dropped)
+        else:
+            la = rng.choice(acts)
         run.do(la)
         if la[0] == "Stop":
             stopped = True
@@ -356,10 +384,12 @@ def run(prop, tier):
         tv = {"walks": 0, "accepted": 0, "rejected": []}
         for name, consts in (("I2", dict(I=2, Horizon=30, MaxConns=4)), ("I3", dict(I=3, Horizon=36, MaxConns=4))):
             traces = {}
-            for _ in range(40 if quick else 400):
+            scripts = [half_open_script(consts["I"], 5, k, af) for k in (1, 2) for af in (False, True)]
+            for wn in range((40 if quick else 400) + len(scripts)):
                 tid += 1
-                run_, rec, lines = real_walk(tid, consts["I"], rng, consts["Horizon"], consts["MaxConns"])
-                rec["origin"], rec["config"] = "real-walk", name
+                script = scripts[wn] if wn < len(scripts) else None
+                run_, rec, lines = real_walk(tid, consts["I"], rng, consts["Horizon"], consts["MaxConns"], script=script)
+                rec["origin"], rec["config"] = ("real-walk" if script is None else "half-open"), name
                 records.append(rec)
                 meta[tid] = {"schedule": run_.schedule, "I": consts["I"], "throttle": list(run_.throttle)}
                 traces[tid] = lines
